@@ -31,7 +31,11 @@ Inductive gev :=
 | GBegin (dial_ok : bool)   (* connect(): setSendClosed(true); transport.Connect() *)
 | GOut (x : out)            (* a request written by the negotiation (it does not pass the gate) *)
 | GEnd (r : result)         (* connect() returns; setSendClosed(false) only on success *)
-| GSend.                    (* sendWithWriter called by any goroutine *)
+| GSend                     (* sendWithWriter called by any goroutine: Send / SendRaw / SendIQ *)
+| GResend.                  (* SendMissingStz (router.go): an <a h/> routed by the go routine the receiver
+                               started for it, possibly long after its connection is gone, or a call by the
+                               application; the stanzas still held for the session are written again through
+                               resendRaw -> sendWithWriter (abstracted: one write for the batch) *)
 
 Inductive sres :=
 | Refused                   (* error returned, nothing written *)
@@ -46,7 +50,7 @@ Definition gstep (s : gate) (e : gev) : gate * list sres :=
   | GEnd r =>
       ({| g_closed := match r with Ok => false | Err _ _ => g_closed s end;
           g_conn := g_conn s; g_tls := g_tls s |}, [])
-  | GSend =>
+  | GSend | GResend =>
       (s, [if g_closed s then Refused else if g_conn s then Written (g_tls s) else Refused])
   end.
 
@@ -64,16 +68,20 @@ Fixpoint grun (s : gate) (es : list gev) : gate * list sres :=
 Definition count_at (k : nat) (during : list nat) : nat := length (filter (Nat.eqb k) during).
 Definition count_from (k : nat) (during : list nat) : nat := length (filter (Nat.leb k) during).
 
-Fixpoint weave (w : list out) (k : nat) (during : list nat) : list gev :=
+(* [during]: the sends, [rduring]: the retransmissions; at one position the sends come first *)
+Fixpoint weave (w : list out) (k : nat) (during rduring : list nat) : list gev :=
   match w with
-  | [] => repeat GSend (count_from k during)
-  | x :: w' => repeat GSend (count_at k during) ++ GOut x :: weave w' (S k) during
+  | [] => repeat GSend (count_from k during) ++ repeat GResend (count_from k rduring)
+  | x :: w' => (repeat GSend (count_at k during) ++ repeat GResend (count_at k rduring))
+               ++ GOut x :: weave w' (S k) during rduring
   end.
 
-Record plan := { pl_during : list nat; pl_after : nat }.   (* pl_after: sends after connect() returned *)
+(* pl_after / pl_rafter: sends / retransmissions after connect() returned *)
+Record plan := { pl_during : list nat; pl_after : nat; pl_rduring : list nat; pl_rafter : nat }.
 
 Definition conn_trace (dial : bool) (w : list out) (r : result) (pl : plan) : list gev :=
-  GBegin dial :: weave w 0 (pl_during pl) ++ GEnd r :: repeat GSend (pl_after pl).
+  GBegin dial :: weave w 0 (pl_during pl) (pl_rduring pl)
+  ++ GEnd r :: (repeat GSend (pl_after pl) ++ repeat GResend (pl_rafter pl)).
 
 (* a history of connections on one Client, with the sends of each; result: per connection, what
    became of its sends, in program order *)
